@@ -85,7 +85,7 @@ def posterior_errors(p, quick_offsets):
                     if not (f(x[i]) == ll[i]):
                         bad = f"row {i}: logl {ll[i]!r} is not the likelihood of x ({f(x[i])!r})"
                         break
-                    if bl is not None and not (targets.blob_of(x[i]) == float(np.ravel(bl[i])[0])):
+                    if bl is not None and not (targets.blob_expected(x[i], cfg) == float(np.ravel(bl[i])[0])):
                         bad = f"row {i}: blob does not belong to x"
                         break
                     r = ref_by_x.get(np.asarray(x[i]).tobytes())
